@@ -14,15 +14,17 @@ import (
 	"io"
 	"io/fs"
 	"os"
+	"os/signal"
 	"path/filepath"
 	"regexp"
 	"runtime/debug"
 	"sort"
-	"strconv"
 	"strings"
 	"sync"
 	"sync/atomic"
+	"syscall"
 	"testing"
+	"time"
 
 	"github.com/dapr/kit/concurrency/dir"
 	"github.com/dapr/kit/logger"
@@ -61,13 +63,19 @@ type Scenario struct {
 
 func (sc Scenario) String() string { b, _ := json.Marshal(sc); return string(b) }
 
-// equivalent reports whether the case duplicates another one: a crash before
-// step k>0 leaves exactly the disk state of the crash after step k-1 (nothing
-// but in-memory code runs in between). Both are executed; only one is counted
-// as distinct.
-func (sc Scenario) equivalent() bool {
-	d := func(c *Crash) bool { return c != nil && !c.After && c.Step > 0 }
-	return d(sc.C1) || d(sc.C2)
+// points lists the crash points of a Write of n steps. literal: before and
+// after each step (2n). Otherwise once per distinct gap between two steps
+// (n+1): before step 0 and after every step — "before step k>0" is the same
+// instant as "after step k-1", only in-memory code runs in between.
+func points(n int, literal bool) []Crash {
+	var out []Crash
+	for k := 0; k < n; k++ {
+		if literal || k == 0 {
+			out = append(out, Crash{k, false})
+		}
+		out = append(out, Crash{k, true})
+	}
+	return out
 }
 
 // contents of file `name` in the seq-th Write call of a scenario: every Write
@@ -100,13 +108,52 @@ type model struct {
 	seenPresent bool                // the target has been observed present
 
 	key, msg string // first violation
+	disk     string // listing of the base directory at that instant
+	vers     []string
 	trace    []string
 	nobs     int64
+	fp       uint64 // fingerprint of everything executed and observed so far
+}
+
+// mix folds a string into the fingerprint (FNV-1a, 64 bit).
+func (m *model) mix(s string) {
+	h := m.fp
+	if h == 0 {
+		h = 14695981039346656037
+	}
+	for i := 0; i < len(s); i++ {
+		h = (h ^ uint64(s[i])) * 1099511628211
+	}
+	m.fp = (h ^ 0xff) * 1099511628211
+}
+
+// mixTarget folds one observation of the target into the fingerprint.
+func (m *model) mixTarget(kind int, files map[string]string) {
+	m.mix(string(rune('0' + kind)))
+	if len(files) == 0 {
+		return
+	}
+	ks := make([]string, 0, len(files))
+	for k := range files {
+		ks = append(ks, k)
+	}
+	sort.Strings(ks)
+	for _, k := range ks {
+		m.mix(k)
+		m.mix(files[k])
+	}
+}
+
+// note appends to the readable trace and to the fingerprint.
+func (m *model) note(s string) {
+	m.trace = append(m.trace, s)
+	m.mix(s)
 }
 
 func (m *model) fail(key, format string, a ...any) {
 	if m.key == "" {
 		m.key, m.msg = key, fmt.Sprintf(format, a...)
+		m.disk = diskState(m.base)
 	}
 }
 
@@ -182,6 +229,7 @@ func (m *model) observe(when func() string) {
 		return
 	}
 	kind, files, detail := readTarget(m.target)
+	m.mixTarget(kind, files)
 	switch kind {
 	case tAbsent:
 		if m.anyNil {
@@ -211,6 +259,7 @@ func (m *model) afterNil(want map[string]string, crashFree bool, what string) {
 		return
 	}
 	kind, files, detail := readTarget(m.target)
+	m.mixTarget(kind, files)
 	if kind != tDir {
 		m.fail("write-returned-nil-target-not-a-directory", "%s returned nil but the target is %s", what, detail)
 		return
@@ -287,7 +336,9 @@ type result struct {
 	fsSteps  int64
 	nobs     int64
 	trace    []string
-	disk     string
+	fp       uint64 // fingerprint: steps executed, every observation of the target, final shape of the base directory
+	// filesystem steps performed in the whole scenario when the first crash fired
+	stepsAtFirstCrash int64
 }
 
 func callWrite(d *dir.Dir, files map[string][]byte) (err error, cr *ctl.Crash) {
@@ -303,25 +354,15 @@ func callWrite(d *dir.Dir, files map[string][]byte) (err error, cr *ctl.Crash) {
 	return d.Write(files), nil
 }
 
-var verRe = regexp.MustCompile(`\b(\d{15,})-tgt\b`)
+var verRe = regexp.MustCompile(`\b\d{15,}-tgt\b`)
 
 // canon makes a message independent of the scratch location and of the
-// absolute ctime values: version directories become v1, v2, ... in creation
-// order (ctime.Now is strictly increasing).
-func canon(root, s string) string {
+// absolute ctime values: version directories become v1, v2, ... in the order
+// the scenario created them.
+func canon(root string, vers []string, s string) string {
 	s = strings.ReplaceAll(s, root+"/", "")
-	var nums []int64
-	seen := map[int64]bool{}
-	for _, mm := range verRe.FindAllStringSubmatch(s, -1) {
-		n, _ := strconv.ParseInt(mm[1], 10, 64)
-		if !seen[n] {
-			seen[n] = true
-			nums = append(nums, n)
-		}
-	}
-	sort.Slice(nums, func(i, j int) bool { return nums[i] < nums[j] })
-	for i, n := range nums {
-		s = strings.ReplaceAll(s, fmt.Sprintf("%d-tgt", n), fmt.Sprintf("v%d-tgt", i+1))
+	for i, v := range vers {
+		s = strings.ReplaceAll(s, v, fmt.Sprintf("v%d-tgt", i+1))
 	}
 	return s
 }
@@ -349,8 +390,44 @@ func diskState(base string) string {
 	return strings.Join(out, "; ")
 }
 
+// diskShape is the final state of the base directory reduced to what does not
+// depend on the order in which one Write created its files: the symlinks with
+// their (canonical) destinations, and per version directory the number of
+// entries and their total size.
+func diskShape(base string, vers []string) string {
+	names, err := rawfs.List(base)
+	if err != nil {
+		return "(base absent)"
+	}
+	var sb strings.Builder
+	for _, n := range names {
+		p := filepath.Join(base, n)
+		sb.WriteString(n)
+		switch k, _ := rawfs.Lkind(p); k {
+		case rawfs.Symlink:
+			l, _ := rawfs.Readlink(p)
+			sb.WriteString("->" + filepath.Base(l))
+		case rawfs.Dir:
+			ents, _ := rawfs.List(p)
+			size := 0
+			for _, e := range ents {
+				d, _, _ := rawfs.ReadRegular(p + "/" + e)
+				size += len(d)
+			}
+			fmt.Fprintf(&sb, "{%d entries, %d bytes}", len(ents), size)
+		}
+		sb.WriteString(";")
+	}
+	return canon(filepath.Dir(base), vers, sb.String())
+}
+
+var stopping atomic.Bool
+
 // exec runs one scenario from an empty scratch directory.
 func (w *worker) exec(sc Scenario) (res result) {
+	if stopping.Load() {
+		select {} // the process is being interrupted
+	}
 	base := filepath.Join(w.root, "base")
 	target := filepath.Join(base, "tgt")
 	defer rawfs.RemoveTree(base)
@@ -358,10 +435,15 @@ func (w *worker) exec(sc Scenario) (res result) {
 	start := w.c.TotalSteps()
 	proc, call := 0, 0
 	w.c.Observe = func(ev ctl.Event) {
+		if ev.Label == "MkdirAll" {
+			if b := filepath.Base(ev.Path); verRe.MatchString(b) && (len(m.vers) == 0 || m.vers[len(m.vers)-1] != b) {
+				m.vers = append(m.vers, b)
+			}
+		}
 		if ev.Err != nil {
-			m.trace = append(m.trace, ev.Label+"!")
+			m.note(ev.Label + "!")
 		} else {
-			m.trace = append(m.trace, ev.Label)
+			m.note(ev.Label)
 		}
 		m.observe(func() string {
 			return fmt.Sprintf("after step %d (%s) of Write #%d of process %d", ev.Index, ev.Label, call, proc)
@@ -370,12 +452,13 @@ func (w *worker) exec(sc Scenario) (res result) {
 	defer func() {
 		w.c.Observe = nil
 		res.key, res.msg = m.key, m.msg
+		m.mix(diskShape(base, m.vers))
+		res.fp = m.fp
 		res.fsSteps = w.c.TotalSteps() - start
 		res.nobs = m.nobs
 		res.trace = m.trace
 		if m.key != "" {
-			res.disk = canon(w.root, diskState(base))
-			res.msg = canon(w.root, fmt.Sprintf("%s | scenario %s | steps: %s | disk: %s", m.msg, sc, strings.Join(m.trace, " "), res.disk))
+			res.msg = canon(w.root, m.vers, fmt.Sprintf("%s | disk at that instant: %s | scenario %s | steps of the whole run: %s", m.msg, m.disk, sc, strings.Join(m.trace, " ")))
 		}
 	}()
 	type process struct {
@@ -391,14 +474,14 @@ func (w *worker) exec(sc Scenario) (res result) {
 			continue
 		}
 		proc = pi + 1
-		m.trace = append(m.trace, fmt.Sprintf("[P%d]", proc))
+		m.note(fmt.Sprintf("[P%d]", proc))
 		d := dir.New(dir.Options{Log: quiet, Target: target}) // a fresh process knows nothing
 		for wi, si := range p.writes {
 			seq++
 			call = wi + 1
 			files, want := mkfiles(seq, si)
 			m.writes = append(m.writes, want)
-			m.trace = append(m.trace, fmt.Sprintf("Write(%s):", strings.Join(fileSets[si], ",")))
+			m.note(fmt.Sprintf("Write(%s):", strings.Join(fileSets[si], ",")))
 			w.c.Begin()
 			if p.crash != nil && wi == p.at {
 				w.c.Arm(p.crash.Step, p.crash.After)
@@ -411,15 +494,19 @@ func (w *worker) exec(sc Scenario) (res result) {
 				res.fired++
 				crashed = true
 				m.trace = append(m.trace, "CRASH("+cr.String()+")")
+				m.mix("CRASH") // where it fired is in the steps before it; before/after is not part of the case's identity
+				if res.fired == 1 {
+					res.stepsAtFirstCrash = w.c.TotalSteps() - start
+				}
 				m.observe(func() string { return "after the " + cr.String() + " in " + what })
 				break // the process is dead; its Dir is abandoned
 			}
 			if err != nil {
-				m.trace = append(m.trace, "-> error")
+				m.note("-> error")
 				m.writeFailed(err, crashed, what)
 				return
 			}
-			m.trace = append(m.trace, "-> nil")
+			m.note("-> nil")
 			m.afterNil(want, !crashed && pi == 0, what)
 			if m.key != "" {
 				return
@@ -435,7 +522,12 @@ func (w *worker) exec(sc Scenario) (res result) {
 // ---------------------------------------------------------------- enumeration
 
 type tally struct {
-	mu       sync.Mutex
+	seen [64]struct {
+		sync.Mutex
+		m map[uint64]struct{}
+	}
+	trivial  atomic.Int64
+	dup      atomic.Int64
 	byKey    map[string]int64
 	fsSteps  atomic.Int64
 	nobs     atomic.Int64
@@ -468,6 +560,24 @@ func (s *slot) add(res result, sc Scenario) {
 	}
 }
 
+// sweepStale removes scratch directories of C18 runs that were killed before
+// they could clean up (verif-c18-<pid>-* whose process is gone).
+func sweepStale(parent string) {
+	if parent == "" {
+		parent = os.TempDir()
+	}
+	ms, _ := filepath.Glob(filepath.Join(parent, "verif-c18-*"))
+	for _, m := range ms {
+		var pid int
+		if _, err := fmt.Sscanf(filepath.Base(m), "verif-c18-%d-", &pid); err != nil || pid <= 0 {
+			continue
+		}
+		if err := syscall.Kill(pid, 0); err == syscall.ESRCH {
+			os.RemoveAll(m)
+		}
+	}
+}
+
 func run(r *enumx.Run, replay *enumx.ReplayCase) {
 	// The live heap is tiny and every case allocates a little, so the default
 	// pacer runs hundreds of collections per second, each synchronising all
@@ -487,9 +597,11 @@ func run(r *enumx.Run, replay *enumx.ReplayCase) {
 			parent = os.Getenv("VERIF_SCRATCH")
 		}
 	}
-	scratch, err := os.MkdirTemp(parent, "verif-c18-")
+	sweepStale(parent)
+	prefix := fmt.Sprintf("verif-c18-%d-", os.Getpid())
+	scratch, err := os.MkdirTemp(parent, prefix)
 	if err != nil && parent != "" {
-		scratch, err = os.MkdirTemp(os.Getenv("VERIF_SCRATCH"), "verif-c18-")
+		scratch, err = os.MkdirTemp(os.Getenv("VERIF_SCRATCH"), prefix)
 	}
 	if err != nil {
 		panic(err)
@@ -498,6 +610,24 @@ func run(r *enumx.Run, replay *enumx.ReplayCase) {
 		panic(err)
 	}
 	defer os.RemoveAll(scratch)
+	// the scratch may live outside the driver's own scratch directory: remove
+	// it also when the run is interrupted
+	sig := make(chan os.Signal, 1)
+	signal.Notify(sig, syscall.SIGINT, syscall.SIGTERM, syscall.SIGHUP)
+	defer signal.Stop(sig)
+	go func() {
+		if _, ok := <-sig; ok {
+			stopping.Store(true) // workers park before their next case
+			for i := 0; i < 100; i++ {
+				time.Sleep(20 * time.Millisecond)
+				if os.RemoveAll(scratch) == nil {
+					break
+				}
+			}
+			os.Exit(2)
+		}
+	}()
+	defer close(sig)
 
 	var wid atomic.Int64
 	pool := make(chan *worker, 256)
@@ -536,11 +666,14 @@ func run(r *enumx.Run, replay *enumx.ReplayCase) {
 		maxLen = 4
 	}
 	r.Rule(fmt.Sprintf("every scenario (history of 1..%d Writes by one Dir over the file sets {}, {a}, {a,b}, {b,c} with per-call contents; "+
-		"crash before and after every filesystem step of the last Write — MkdirAll, WriteFile split into create/first half/rest, Symlink, Rename, RemoveAll split per entry; "+
-		"then a fresh Dir writing every set, followed by nothing or every second set, or crashing inside that Write (thorough: before and after every step; quick: once per distinct gap, i.e. before step 0 and after every step) followed by a third fresh Dir writing every set), "+
+		"a crash at every point of the last Write, whose filesystem steps are MkdirAll, WriteFile split into create/first half/rest, Symlink, Rename, RemoveAll split per entry "+
+		"(thorough: before and after every step, 2n points; quick: once per distinct gap between steps, n+1 points: before step 0 and after every step); "+
+		"then a fresh Dir writing every set, followed by nothing or every second set, or crashing at every point of that Write (same rule) followed by a third fresh Dir writing every set), "+
 		"executed on the real filesystem through the real dir.go with os/time substituted; the property is evaluated after every single step, after every crash and after every Write that returns. "+
-		"Step counts are measured from a completed run, so every placed crash fires. A case is counted distinct/non-trivial unless it places a crash 'before step k>0', "+
-		"which leaves the same disk state as 'after step k-1' (both are executed).", maxLen))
+		"Step counts are measured from a completed run, so every placed crash fires. "+
+		"distinct_nontrivial is measured: a case is trivial if its first crash fires before any filesystem step was performed; two cases are the same if they have the same fingerprint "+
+		"(64-bit FNV-1a over every step executed, every observation of the target with full contents, where each crash fired, and the final shape of the base directory; "+
+		"whether a crash was placed 'before step k' or 'after step k-1' is not part of it, so the thorough tier's literal before/after pairs collapse).", maxLen))
 	r.Assume("crash = process death between two filesystem calls (kernel state survives, memory does not); power loss / missing fsync is not modelled and not claimed by the property")
 	r.Assume("ctime.Now is strictly increasing: two Writes never derive the same version directory name (the real clock may repeat or step back; outside the property)")
 	r.Assume("the order in which one Write creates the files of a two-file set is Go's map iteration order and is not controlled: the oracle does not depend on it, step labels number the files by call order, " +
@@ -550,8 +683,23 @@ func run(r *enumx.Run, replay *enumx.ReplayCase) {
 	tl := &tally{byKey: map[string]int64{}}
 	note := func(res result, sc Scenario, s *slot) {
 		nt := int64(1)
-		if sc.equivalent() || res.fired != res.planned {
+		if res.fired != res.planned || (res.fired > 0 && res.stepsAtFirstCrash == 0) {
+			// trivial: the first crash hit before anything had been done
 			nt = 0
+			tl.trivial.Add(1)
+		} else {
+			sh := &tl.seen[res.fp%64]
+			sh.Lock()
+			if sh.m == nil {
+				sh.m = map[uint64]struct{}{}
+			}
+			if _, dup := sh.m[res.fp]; dup {
+				nt = 0
+				tl.dup.Add(1)
+			} else {
+				sh.m[res.fp] = struct{}{}
+			}
+			sh.Unlock()
 		}
 		r.Count(1, nt)
 		tl.fsSteps.Add(res.fsSteps)
@@ -612,6 +760,15 @@ func run(r *enumx.Run, replay *enumx.ReplayCase) {
 		}
 	})
 	report(slots1)
+	aborted := 0
+	for i := range hists {
+		if nlast[i] == 0 {
+			aborted++
+		}
+	}
+	if done == len(hists) && aborted > 0 {
+		r.Incomplete(fmt.Sprintf("%d of %d crash-free histories already violate the property; the crash points inside them are not enumerated", aborted, len(hists)))
+	}
 	if done < len(hists) {
 		r.Incomplete(fmt.Sprintf("crash-free histories: %d of %d run; no crash case run", done, len(hists)))
 		finish(r, tl)
@@ -626,14 +783,14 @@ func run(r *enumx.Run, replay *enumx.ReplayCase) {
 	}
 	var items []item
 	for h := range hists {
-		for k := 0; k < nlast[h]; k++ {
-			items = append(items, item{h, Crash{k, false}}, item{h, Crash{k, true}})
+		for _, c1 := range points(nlast[h], r.Thorough()) {
+			items = append(items, item{h, c1})
 		}
 	}
 	slots2 := make([]slot, len(items))
-	nested := "the n+1 distinct gaps (before step 0, after each of the n steps)"
+	nested := "the n+1 distinct gaps (before step 0, after each of the n steps), as for the first crash"
 	if r.Thorough() {
-		nested = "the 2n points (before and after each of the n steps)"
+		nested = "the 2n points (before and after each of the n steps), as for the first crash"
 	}
 	done = r.Parallel(len(items), func(i int) {
 		w := get()
@@ -654,17 +811,11 @@ func run(r *enumx.Run, replay *enumx.ReplayCase) {
 			if len(resA.steps[1]) > 0 {
 				n = resA.steps[1][0]
 			}
-			for k := 0; k < n; k++ {
-				for _, after := range []bool{false, true} {
-					if !after && k > 0 && !r.Thorough() {
-						// same disk state as "after step k-1"; the quick tier places
-						// the nested crash once per distinct gap between two steps
-						continue
-					}
-					for t := range fileSets {
-						sc := Scenario{Hist: hists[it.h], C1: &it.c1, Rec: []int{r1}, C2: &Crash{k, after}, Third: []int{t}}
-						note(w.exec(sc), sc, s)
-					}
+			for _, c2 := range points(n, r.Thorough()) {
+				c2 := c2
+				for t := range fileSets {
+					sc := Scenario{Hist: hists[it.h], C1: &it.c1, Rec: []int{r1}, C2: &c2, Third: []int{t}}
+					note(w.exec(sc), sc, s)
 				}
 			}
 		}
@@ -700,6 +851,8 @@ func finish(r *enumx.Run, tl *tally) {
 	r.Set("oracle_observations", tl.nobs.Load())
 	r.Set("crashes_fired", tl.crashes.Load())
 	r.Set("max_steps_in_one_write", tl.maxSteps.Load())
+	r.Set("trivial_cases", tl.trivial.Load())
+	r.Set("duplicate_cases", tl.dup.Load())
 	keys := map[string]int64{}
 	for k, v := range tl.byKey {
 		keys[k] = v
